@@ -311,3 +311,10 @@ func specChunkWireSize(c *chunkPayloadData) int {
 //@   at store Association.ssthresh assert#fast-recovery-halves-ssthresh{C10} stored == max32(a.CWND()/2, 4*a.MTU())
 //@   at store Association.ssthresh assert#fast-recovery-entered-once{C10} a.inFastRecovery && stored == max32(a.CWND()/2, 4*a.MTU())
 //@   at call Association.setCWND assert#fast-recovery-cuts-cwnd-to-ssthresh{C10} arg1 == a.ssthresh && a.inFastRecovery
+
+// ---- C11: the advertised credit never exceeds the configured receive buffer ----
+
+//@ func Association.getMyReceiverWindowCredit
+//@   ensures#within-the-configured-buffer{C11} result <= a.maxReceiveBufferSize
+//@   modifies nothing
+//@   tags C11
